@@ -30,6 +30,7 @@ template<> struct GenItem<std::string> { static std::string make(Rng& r, uint64_
   for (size_t i = 0; i < len; ++i) { s += char('a' + x % 26); x = x / 26 + 11 * (i + 1); }
   return s; } };
 
+inline uint64_t img_hash_b(const std::string& s) { uint64_t h = 0x51; for (unsigned char ch : s) h = (h ^ ch) * 0x100000001b3ULL; return h; }
 template<typename T> using IW = std::pair<T, uint64_t>;
 template<typename T> void sort_iw(std::vector<IW<T>>& v) { std::sort(v.begin(), v.end()); }
 
@@ -118,6 +119,7 @@ template<typename T> struct KllFam {
     if (!s.is_empty() && r.coin()) (void)s.get_rank(s.get_min_item());
     return s;
   }
+  static bool extra_case(Rng&) { return false; }
   static std::string write(const SK& s, bool stream) { if (stream) { std::ostringstream os; s.serialize(os); return os.str(); } return to_str(s.serialize()); }
   static SK read(const std::string& img, bool stream) { if (stream) { std::istringstream is(img); return SK::deserialize(is); } return SK::deserialize(img.data(), img.size()); }
   static std::string readout(const SK& s) {
@@ -187,6 +189,52 @@ template<typename T> struct ReqFam {
     if (!s.is_empty() && r.coin()) (void)s.get_rank(s.get_min_item());   // sorts level zero: level-zero-sorted flag in the image
     return s;
   }
+  // generated cases only: raw-items images (n = 2..4) whose level zero is UNSORTED at serialize time (never queried before):
+  // the sorted flag must say so, and both restored sketches must rank every item exactly (all weights are 1)
+  static bool extra_case(Rng& r) {
+    if (!r.chance(0.3)) return false;
+    static const uint16_t ks[] = {4, 12, 50};
+    const uint16_t k = ks[r.below(3)]; const bool hra = r.coin();
+    const uint32_t n = 2 + static_cast<uint32_t>(r.below(3));
+    std::vector<T> items;
+    for (uint32_t i = 0; i < n; ++i) items.push_back(GenItem<T>::make(r, r.chance(0.2) ? 3 : (1ULL << 20)));
+    const int order = static_cast<int>(r.below(3));     // 0 descending, 1 shuffled, 2 ascending arrival
+    std::sort(items.begin(), items.end());
+    if (order == 0) std::reverse(items.begin(), items.end()); else if (order == 1) r.shuffle(items);
+    const bool unsorted = !std::is_sorted(items.begin(), items.end());
+    SK s(k, hra);
+    for (const T& x : items) s.update(x);
+    const std::string ctx = std::string("raw items n=") + std::to_string(n) + " hra=" + std::to_string(hra) + " k=" + std::to_string(k) + " arrival " + (unsorted ? "unsorted" : "ascending");
+    describe("decode family=req " + ctx);
+    const std::string b = write(s, false), st = write(s, true);      // no query before serializing
+    VF_CHECK(b == st, "req|image|bytes-path-image-differs-from-stream-path-image", ctx);
+    Req<T> d = decode_req<T>(b.data(), b.size());
+    VF_CHECK(d.raw && d.items.size() == n, "req|image|raw-items-form-expected", ctx);
+    { std::vector<T> a = d.items, e = items; std::sort(a.begin(), a.end()); std::sort(e.begin(), e.end());
+      VF_CHECK(a == e, "req|image-vs-inputs|raw-items-multiset", ctx); }   // (storage order inside level zero is the compactor's business)
+    if (d.l0_sorted) VF_CHECK(std::is_sorted(d.items.begin(), d.items.end()), "req|image|level-zero-sorted-flag-but-level-zero-unsorted", ctx);
+    if (!std::is_sorted(d.items.begin(), d.items.end())) count("req_raw_image_items_unsorted");
+    VF_CHECK(d.hra == hra, "req|image-vs-api|hra-flag-bit3", ctx);
+    for (int stream = 0; stream < 2; ++stream) {
+      const std::string P = stream ? "stream" : "bytes";
+      try {
+        const SK back = read(stream ? st : b, stream != 0);
+        VF_CHECK(back.get_n() == n && back.get_num_retained() == n && back.is_HRA() == hra && back.get_k() == k, "req|restored-raw-items|" + P + "|counts", ctx);
+        bool ok = true; std::string bad;
+        for (const T& x : items) {
+          uint32_t le = 0, lt = 0; for (const T& y : items) { if (!(x < y)) ++le; if (y < x) ++lt; }
+          const double ri = back.get_rank(x, true), re = back.get_rank(x, false);
+          if (ri != double(le) / n || re != double(lt) / n) { ok = false; bad = " inclusive " + str(ri) + " want " + str(double(le) / n) + " exclusive " + str(re) + " want " + str(double(lt) / n); }
+        }
+        VF_CHECK(ok, "req|restored-raw-items|" + P + "|rank-vs-exact-multiset", ctx + bad);
+        T mn = items[0], mx = items[0]; for (const T& x : items) { if (x < mn) mn = x; if (mx < x) mx = x; }
+        VF_CHECK(back.get_min_item() == mn && back.get_max_item() == mx, "req|restored-raw-items|" + P + "|min-max", ctx);
+      } catch (const std::exception& e) { checked(); fail("req|restored-raw-items|" + P + "|threw", ctx + ": " + e.what()); }
+    }
+    count(unsorted ? (hra ? "req_raw_unsorted_hra" : "req_raw_unsorted_lra") : "req_raw_ascending_arrival");
+    sig(mix64(mix64(n, k), mix64(hra, order) + img_hash_b(b)));
+    return true;
+  }
   static std::string write(const SK& s, bool stream) { if (stream) { std::ostringstream os; s.serialize(os); return os.str(); } return to_str(s.serialize()); }
   static SK read(const std::string& img, bool stream) { if (stream) { std::istringstream is(img); return SK::deserialize(is); } return SK::deserialize(img.data(), img.size()); }
   static std::string readout(const SK& s) {
@@ -248,6 +296,7 @@ template<typename T> struct QuantFam {
     for (uint64_t i = 0; i < n; ++i) s.update(GenItem<T>::make(r, dom));
     return s;
   }
+  static bool extra_case(Rng&) { return false; }
   static std::string write(const SK& s, bool stream) { if (stream) { std::ostringstream os; s.serialize(os); return os.str(); } return to_str(s.serialize()); }
   static SK read(const std::string& img, bool stream) { if (stream) { std::istringstream is(img); return SK::deserialize(is); } return SK::deserialize(img.data(), img.size()); }
   static std::string readout(const SK& s) {
@@ -280,6 +329,7 @@ template<typename Fam> void register_quantile_family(const std::string& name, in
   f.read = [](const std::string& img, bool stream, int) { return Fam::readout(Fam::read(img, stream)); };
   const bool is_kll = name.compare(0, 3, "kll") == 0;
   f.decode_case = [name, is_req, is_kll](int v, Rng& r, bool small) {
+    if (is_req && Fam::extra_case(r)) { count("decoded_" + name); return; }
     kll_smaller_k_merge_mode() = is_kll && r.chance(0.3);
     auto s = Fam::gen(v, r, small);
     kll_smaller_k_merge_mode() = false;
